@@ -11,7 +11,11 @@ use crate::{
     intermediate::{types::*, *},
 };
 
-use super::{common::optional_comma, constraint::constraints, *};
+use super::{
+    common::{optional_comma, reserved_words},
+    constraint::constraints,
+    *,
+};
 
 pub fn sequence_value(input: Input<'_>) -> ParserResult<'_, ASN1Value> {
     map(
@@ -112,7 +116,7 @@ pub fn sequence_component(input: Input<'_>) -> ParserResult<'_, SequenceComponen
     skip_ws_and_comments(alt((
         map(
             preceded(
-                tag(COMPONENTS_OF),
+                reserved_words(COMPONENTS_OF),
                 skip_ws_and_comments(alt((
                     into_inner(recognize(separated_list1(tag(".&"), identifier))),
                     type_reference,
